@@ -14,6 +14,7 @@ import PyGqlModel.Lemmas.ParseDocL
 import PyGqlModel.Lemmas.ParseTSE
 import PyGqlModel.Lemmas.ParseTSC
 import PyGqlModel.Lemmas.ParseTSC6
+import PyGqlModel.Lemmas.ParseErase3
 namespace PyGql.Props.C01
 open PyGql PyGql.Ast PyGql.Parse PyGql.Spec
 
@@ -235,6 +236,32 @@ theorem matched_document_unique (fl : Flags) (toks : List Tok) (d d' : Document)
   have a := parse_complete_document fl toks d w h
   have b := parse_complete_document fl toks d' w' h'
   rw [a] at b; cases b; rfl
+
+/-! ## completeness up to positions -/
+
+theorem wfDefinition_E (fl : Flags) (x : Definition) : wfDefinition (E fl) x = wfDefinition fl x := by
+  cases x <;> simp [wfDefinition, wfFragment, E]
+
+theorem wfDocument_E (fl : Flags) (d : Document) : wfDocument (E fl) d = wfDocument fl d := by
+  simp [wfDocument, wfDefinition_E, E_ts]
+
+/-- COMPLETENESS UP TO POSITIONS: let `t` be any tree (its `loc`s are irrelevant: only `t.erase` occurs) that is
+    well-formed and whose position-free view derives the token list (`Matches` under `no_location`: token classes
+    agree, optional separators free, look-ahead restrictions respected).  Then `parse` accepts the tokens — under
+    the given flags, positions on or off — and returns `t` up to positions. -/
+theorem parse_complete_up_to_positions (fl : Flags) (toks : List Tok) (t : Document)
+    (w : wfDocument fl t.erase = true) (h : Matches (E fl) [documentV t.erase] toks) :
+    ∃ t', parseDocument fl toks = .ok t' ∧ t'.erase = t.erase := by
+  have c := parse_complete_document (E fl) toks t.erase (by rw [wfDocument_E]; exact w) h
+  have e : parseDocument (E fl) toks = (parseDocument fl toks).map Document.erase :=
+    runAll_E _ _ _ (parseDocumentP_E fl) toks
+  rw [e] at c
+  cases hp : parseDocument fl toks with
+  | error err => rw [hp] at c; cases c
+  | ok t' =>
+    rw [hp] at c
+    refine ⟨t', rfl, ?_⟩
+    simpa [Except.map] using c
 
 /-! ## the tables re-extracted from `parser.py` are the grammar's
 
